@@ -7,7 +7,7 @@ import importlib
 import numpy as real_np
 from symx.core import SymInt, is_sym, b_and, b_or, Unsupported, eng, PathAbort, fx
 from symx import builtins as sb
-from .lazybytes import (LazyBytes, FileSrc, CodeSrc, ConstSrc, ShimStruct, shim_bytes, shim_bytearray, ZERO, EOF,
+from .lazybytes import (LazyBytes, FileSrc, CodeSrc, ConstSrc, ShimStruct, shim_bytes, shim_bytearray, shim_memoryview, LazyView, ZERO, EOF,
                         MIXED, TagSrc)
 from .lazyarr import LazyArr, ShimNP, from_numpy
 
@@ -113,6 +113,16 @@ class ShimFile:
         self.store.reads.append((self.pos, n, got))
         self.pos = self.pos + got
         return out
+
+    def readinto(self, buf):
+        """io.RawIOBase.readinto: fill buf (a lazy bytearray or a view of one) from the current position; -> bytes stored
+        (fewer than len(buf) at end of file / on a short read)."""
+        if isinstance(buf, LazyBytes):
+            buf = LazyView(buf)
+        if not isinstance(buf, LazyView):
+            raise Unsupported("readinto a concrete buffer")
+        data = self.read(buf.length)
+        return buf.write(data)
 
     def write(self, b):
         if self.closed:
@@ -467,7 +477,7 @@ def install(mods, np_shim=None, zfpy_shim=None, extra=None):
     np_shim = np_shim or ShimNP()
     zfpy_shim = zfpy_shim or ShimZfpy()
     common = dict(sb.COMMON)
-    common.update(bytes=shim_bytes, bytearray=shim_bytearray)
+    common.update(bytes=shim_bytes, bytearray=shim_bytearray, memoryview=shim_memoryview)
     for name, m in mods.items():
         if name in ('sgzconstants',):
             continue
